@@ -124,7 +124,7 @@ def run_suite(binary, driver, r, tier, seed, wdir):
             os.remove(p)
     n = r['n'][tier] if isinstance(r['n'], dict) else r['n']
     cmd = [binary, r['suite'], '--mix', r.get('mix', 'all') if isinstance(r.get('mix', 'all'), str) else r['mix'][tier],
-           '--n', str(n), '--seed', str(seed), '--tier', tier, '--out', wdir] + r.get('args', [])
+           '--n', str(n), '--seed', str(seed), '--tier', tier, '--out', wdir] + (r.get('args', [])[tier] if isinstance(r.get('args', []), dict) else r.get('args', []))
     h = run(cmd, cwd=wdir, timeout=7200)
     if h.returncode != 0:
         return dict(error='harness failed: ' + h.stdout[-3000:])
